@@ -40,7 +40,7 @@ func runCutCase(c *cutCase) (kind, detail string, ok bool) {
 }
 
 func c09(run *core.Run, replay string) {
-	run.SetRule("valid streams (recipes below) are cut at EVERY byte position 0..len-1 (small streams: exhaustive) or at block-boundary-focused and random positions (large streams) and decoded with jobs 1 and 3; " +
+	run.SetRule("valid streams (recipes below) are cut at EVERY byte position 0..len-1 (small streams: exhaustive) or at block-boundary-focused and random positions (large streams; streams of 130..260 small blocks cut -1..+9 bytes around every block header, covering the 64 alignments of a header in a word) and decoded with jobs 1..3; " +
 		"oracle: reading must end with an error, never a clean io.EOF; non-trivial = cut inside or after the first block (header intact); distinct = (recipe, cut, jobs)")
 	if replay != "" {
 		var c cutCase
@@ -130,6 +130,37 @@ func c09(run *core.Run, replay string) {
 			}
 		}
 	}
+	// many small blocks: the position of a block header inside the 64-bit words of the input bitstream takes every value
+	// (a cut a few bytes after a header that ends exactly on a word boundary leaves a partial word to the next refill)
+	align := map[int]bool{}
+	for i, cf := range []kz.Cfg{cfg("NONE", "HUFFMAN", 1024, 1, 0), cfg("LZ", "ANS0", 1024, 2, 32), cfg("NONE", "NONE", 1024, 1, 64), cfg("RLT", "HUFFMAN", 1024, 3, 0), cfg("NONE", "RANGE", 1040, 1, 0), cfg("TEXT", "HUFFMAN", 2048, 2, 32)} {
+		if !run.Thorough() && i >= 4 {
+			break
+		}
+		rc := recipe{fmt.Sprintf("many-blocks-%d", i), cf, []string{"text", "html", "skewed", "runs", "dna", "text"}[i], int(cf.BlockSize)*[]int{260, 200, 130, 220, 180, 150}[i] - 333, S + int64(i)}
+		_, stream, err := rc.build()
+		if err != nil {
+			run.Count("recipe_build_failed", 1)
+			continue
+		}
+		ps, perr := container.Parse(stream)
+		if perr != nil {
+			continue
+		}
+		cuts := map[int]bool{}
+		for _, b := range ps.Blocks {
+			align[b.PrefixOff%64] = true
+			for d := -1; d <= 9; d++ {
+				cuts[b.PrefixOff/8+d] = true
+			}
+		}
+		for cut := range cuts {
+			if cut >= 0 && cut < len(stream) {
+				cases = append(cases, &cutCase{rc, cut, uint(1 + cut%3)})
+			}
+		}
+	}
+	run.Count("distinct_block_header_alignments_mod_64", len(align))
 	core.ParallelDo(len(cases), 0, func(i int) {
 		c := cases[i]
 		if core.Hangs() >= 3 {
